@@ -215,5 +215,28 @@ def sweep_append(prop, seed, cfg, ops, tier, agg):
             agg.add_result(seed, cfg, ops2, r)
 
 
-SWEEPS = {"C16": sweep_append, "C11": sweep_collab, "C12": sweep_crash, "C13": sweep_ioerror,
+def sweep_index(prop, seed, cfg, ops, tier, agg):
+    """C06: the history as generated, plus an OSError at sampled read steps
+    of operations that rebuild the index (error paths of maintenance)."""
+    from .runner import run_case
+    base = run_case(prop, cfg, ops)
+    agg.add_result(seed, cfg, ops, base)
+    if base.violation or base.harness or base.foreign:
+        return
+    if cfg.get("storage") != "csv" or (seed % 3 and tier == "quick"):
+        return
+    w = base.world
+    rng = random.Random(seed * 7919 + 6)
+    targets = [j for j, op in enumerate(ops)
+               if any(s[1] == "read" for s in w.op_steps.get(j, ()))]
+    for j in _pick(rng, targets, 2 if tier == "quick" else 6):
+        reads = [s for s in w.op_steps[j] if s[1] == "read"]
+        for s in _pick(rng, reads, 2 if tier == "quick" else 6):
+            f = {"step": s[0], "mode": "pre", "err": "EIO"}
+            ops2 = _variant(ops, j, f, False)
+            r = run_case(prop, cfg, ops2)
+            agg.add_result(seed, cfg, ops2, r)
+
+
+SWEEPS = {"C06": sweep_index, "C16": sweep_append, "C11": sweep_collab, "C12": sweep_crash, "C13": sweep_ioerror,
           "C15": sweep_listing}
